@@ -39,7 +39,7 @@ fn script_body(spec: &Value) {
     verif::script_shake(Some(shake));
 }
 
-pub fn server_decode(spec: &Value, _cfg: &Value, src: &mut BytesMut) -> Result<(), String> {
+pub fn server_decode(spec: &Value, _cfg: &Value, src: &mut BytesMut) -> Result<bool, String> {
     let config = crate::trojan::server_config("vmess", "pw", "aes-128-gcm", json!([{"name": "u", "password": UUID}]));
     let mut codec = new_vmess_codec(&config).map_err(|e| e.to_string())?;
     let key = id::from_password(UUID).map_err(|e| e.to_string())?;
@@ -68,7 +68,7 @@ pub fn server_decode(spec: &Value, _cfg: &Value, src: &mut BytesMut) -> Result<(
     }
     script_body(spec);
     let mut wire = BytesMut::from(&wire[..]);
-    let r = codec.decode(&mut wire).map(|_| ()).map_err(|e| e.to_string());
+    let r = codec.decode(&mut wire).map(|o| crate::decode::item_of(&o)).map_err(|e| e.to_string());
     verif::script_shake(None);
     r
 }
@@ -87,7 +87,7 @@ fn options(chunk: &str, padding: &str) -> Vec<RequestOption> {
 }
 
 /// AEADBodyCodec::{decode_payload, decode_packet} from the model's decoder state
-pub fn body_decode(spec: &Value, cfg: &Value, src: &mut BytesMut) -> Result<(), String> {
+pub fn body_decode(spec: &Value, cfg: &Value, src: &mut BytesMut) -> Result<bool, String> {
     let chunk = cfg["chunk"].as_str().unwrap_or("Plain");
     let padding = cfg["padding"].as_str().unwrap_or("Empty");
     let udp = cfg["command"].as_str() == Some("UDP");
@@ -126,14 +126,14 @@ pub fn body_decode(spec: &Value, cfg: &Value, src: &mut BytesMut) -> Result<(), 
         }
     }
     script_body(spec);
-    let r = if udp { codec.decode_packet(src, &mut session).map(|_| ()).map_err(|e| e.to_string()) } else { codec.decode_payload(src, &mut session).map(|_| ()).map_err(|e| e.to_string()) };
+    let r = if udp { codec.decode_packet(src, &mut session).map(|o| crate::decode::item_of(&o)).map_err(|e| e.to_string()) } else { codec.decode_payload(src, &mut session).map(|o| crate::decode::item_of(&o)).map_err(|e| e.to_string()) };
     verif::script_shake(None);
     r
 }
 
 /// client response header: recover the session keys from the client's own sealed request, then seal the model's
 /// header-length and header plaintexts the way the server does
-pub fn client_decode(spec: &Value, cfg: &Value, src: &mut BytesMut) -> Result<(), String> {
+pub fn client_decode(spec: &Value, cfg: &Value, src: &mut BytesMut) -> Result<bool, String> {
     let security = if cfg["security"].as_str() == Some("Chacha20Poly1305") { SecurityType::Chacha20Poly1305 } else { SecurityType::Aes128Gcm };
     let header = RequestHeader::default(RequestCommand::TCP, security, Address::Socket("1.2.3.4:80".parse().unwrap()), UUID).map_err(|e| e.to_string())?;
     let key = header.id;
@@ -175,12 +175,12 @@ pub fn client_decode(spec: &Value, cfg: &Value, src: &mut BytesMut) -> Result<()
     let shake: Vec<u16> = list(spec, "xof").into_iter().map(|x| x.map(|b| u16::from_be_bytes([*b.first().unwrap_or(&0), *b.get(1).unwrap_or(&0)])).unwrap_or(0)).collect();
     verif::script_shake(Some(shake));
     let mut wire = BytesMut::from(&wire[..]);
-    let r = client.decode(&mut wire).map(|_| ()).map_err(|e| e.to_string());
+    let r = client.decode(&mut wire).map(|o| crate::decode::item_of(&o)).map_err(|e| e.to_string());
     verif::script_shake(None);
     r
 }
 
-pub fn read_address(src: &mut BytesMut) -> Result<(), String> {
+pub fn read_address(src: &mut BytesMut) -> Result<bool, String> {
     let mut b = src.split_off(0).freeze();
-    octo_squirrel::protocol::vmess::address::read_address_port(&mut b).map(|_| ()).map_err(|e| e.to_string())
+    octo_squirrel::protocol::vmess::address::read_address_port(&mut b).map(|o| crate::decode::item_of(&o)).map_err(|e| e.to_string())
 }
